@@ -16,19 +16,20 @@ type evidence struct {
 	WallS       float64        `json:"wall_s"`
 	Violations  int            `json:"violations"`
 
-	distinct map[uint64]struct{}
-	sched    map[uint64]struct{}
-	conf     map[uint64]struct{}
-	probes   map[string]int
-	faults   map[string]int
-	phases   []map[string]any
-	runs     int
-	ops      int
-	steps    int
-	switches int
-	refEvals int
-	samples  []any
-	simWall  float64
+	distinct     map[uint64]struct{}
+	sched        map[uint64]struct{}
+	conf         map[uint64]struct{}
+	probes       map[string]int
+	faults       map[string]int
+	phases       []map[string]any
+	runs         int
+	ops          int
+	steps        int
+	switches     int
+	inconclusive int
+	refEvals     int
+	samples      []any
+	simWall      float64
 }
 
 var rules = map[string]string{}
@@ -70,6 +71,7 @@ func (e *evidence) addPhase(ph phase, outs []runOut, wall float64) {
 		ops += r.Stats.Ops
 		steps += r.Stats.Steps
 		e.switches += r.Stats.Switches
+		e.inconclusive += r.Stats.Inconclusive
 		e.refEvals += r.MemoMisses
 		exhausted = exhausted && r.Exhausted
 		if r.Rule != "" {
@@ -122,6 +124,7 @@ func (e *evidence) write(path string) error {
 	c["scheduler_steps"] = e.steps
 	c["simulated_time"] = map[string]any{"unit": "logical steps (scheduler decisions and I/O events); the library has no clock", "steps": e.steps}
 	c["context_switches"] = e.switches
+	c["inconclusive_runs"] = e.inconclusive
 	c["distinct_schedule_signatures"] = len(e.sched)
 	c["distinct_conflict_signatures"] = len(e.conf)
 	c["probes"] = e.probes
